@@ -314,9 +314,13 @@ theorem noOv_closeOut {c : Cfg} {fs0 : FS} (hwf : c.WF) (io : Nat → Fault) (st
       · rw [if_neg hwd]
         exact noOv_moveOut hwf io _ h3 (closeFd_hasOut io _ (by simpa using hr)) (by simpa using hwd)
 
-theorem noOv_sealTail {c : Cfg} {fs0 : FS} (io : Nat → Fault) (s1 : St) (f : File) (h : NoOv c fs0 s1) :
-    NoOv c fs0 (sealTail c io s1 f) := by
+theorem noOv_sealTail {c : Cfg} {fs0 : FS} (io : Nat → Fault) (rd : Fault) (s1 : St) (f : File) (h : NoOv c fs0 s1) :
+    NoOv c fs0 (sealTail c io rd s1 f) := by
   unfold sealTail
+  split
+  · split
+    · exact h
+    · exact NoOv_dead h ⟨⟨by simp [fatal], rfl, rfl, rfl, rfl⟩, fun e => by simp [fatal] at e⟩
   split
   · have h2 := noOv_onOut io s1 _ (fileWrite_le c.gzip [10]) h
     simp only []
